@@ -33,13 +33,14 @@ Fixpoint streak (rh : list lop) : Z :=
   end.
 
 (* the instant until which the account is locked: set by the latest event that locks
-   (a failure that brings the streak to the threshold inside the window, or a manual
-   lock), moved into the past by a later unlock *)
+   (a failure that brings the streak to the threshold - also the failure that restarts the
+   streak at one when LockAfter is one - or a manual lock), moved into the past by a later
+   unlock *)
 Fixpoint locked_until (rh : list lop) : Z :=
   match rh with
   | [] => zero_instant
   | LFail t :: r =>
-      if (t - last_stamp r <=? lc_window c) && (lc_after c <=? streak r + 1)
+      if lc_after c <=? streak (LFail t :: r)
       then t + lc_duration c else locked_until r
   | LManualLock t :: _ => t + lc_duration c
   | LUnlock t :: _ => t - lc_duration c
